@@ -7,8 +7,8 @@ CLAIMS = {
   'note': TRUST + ' Decides the zero-divisor clause only.',
  },
  'C02': {
-  'technique': 'static analysis: MIR panic-site enumeration over the call graph of the comparison impls (debug-profile facts) with interval/dominance discharge and a reviewed-site table',
-  'text': 'Partial, structural: decides "no comparison of finite decimals panics or depends on build profile" by enumerating every may-panic site (overflow/bounds asserts, debug_assert failures, unwrap/expect, slicing) reachable from PartialEq/PartialOrd/Ord on BigDecimal/BigDecimalRef; each is discharged by interval reasoning or matches a reviewed entry whose guarding condition is re-checked. Does not decide that the four comparison strategies return the right answer.',
+  'technique': 'static analysis: MIR panic-site enumeration over the call graph of the comparison impls (debug-profile facts) with interval/dominance discharge and a reviewed-site table; decision-table extraction from the CFG of Ord::cmp / the equality prologue',
+  'text': 'Partial, structural: decides "no comparison of finite decimals panics or depends on build profile" by enumerating every may-panic site (overflow/bounds asserts, debug_assert failures, unwrap/expect, slicing) reachable from PartialEq/PartialOrd/Ord on BigDecimal/BigDecimalRef; each is discharged by interval reasoning or matches a reviewed entry whose guarding condition is re-checked. ORDER-TABLE: the decision table of <BigDecimalRef as Ord>::cmp is extracted from its CFG (14 cells over scale order x difference-fits-u64 x sign + the sign prologue): the right digit comparison with the right orientation, reversed exactly for negative operands, no magnitude ordering returned without the sign correction; checked_diff meets its contract cell by cell; check_equality_bigdecimal_ref\'s prologue (zero/zero, differing signs, equal scales, overflowing gap) and the orientation (larger-scale digits vs smaller-scale digits x 10^diff) of every oriented helper call are checked. Does not decide the digit-level strategies inside compare_scaled_biguints and the equality loops.',
   'note': TRUST + ' Reviewed entries (tables/reviewed_panic_sites.json) carry human arguments; helper summaries count_decimal_digits_uint = digit count.',
  },
  'C03': {
@@ -18,7 +18,7 @@ CLAIMS = {
  },
  'C05': {
   'technique': 'static analysis: MIR panic-site enumeration over the parser call graph with interval/dominance discharge and reviewed UTF-8-boundary sites',
-  'text': 'Partial, structural: decides "no input string makes the parser panic" (all may-panic sites reachable from from_str_radix/from_str/parse_bytes discharged or reviewed with re-checked guards). The accepted grammar and the denoted value are NOT decided.',
+  'text': 'Partial, structural: decides "no input string makes the parser panic" (all may-panic sites reachable from from_str_radix/from_str/parse_bytes discharged or reviewed with re-checked guards). R-TABLE: every Ok(..) return of from_str_radix lies on the radix == 10 edge and the scale is computed from the parsed exponent through checked operations and widening casts only. GATEWAY (who-may-call): from_str and parse_bytes reach an integer/float text parser only through from_str_radix, so neither the radix check nor the decimal grammar can be bypassed. The accepted grammar and the denoted value are NOT decided.',
   'note': TRUST + ' str::find returns a char-boundary index; BigInt::from_str_radix panics only for radix outside 2..=36.',
  },
  'C20': {
@@ -28,12 +28,12 @@ CLAIMS = {
  },
  'C06': {
   'technique': 'static analysis: decision-table extraction from the CFG of the digit-pair primitive, exhaustive comparison with the documented mode definitions; writer/reader cross-check of the lazy tail flag; provenance of the default mode',
-  'text': 'Partial, structural: (1) the complete decision table of RoundingMode::round_pair is read off its CFG and equals the documented definition for every one of the 4200 (mode, sign, digit pair, tail flag) inputs - exhaustive over the abstract cells, the function is never executed; (2) needs_trailing_zeros never claims the tail is irrelevant where round_pair depends on it; (3) round(n) rounds with the configured default mode. NOT decided: carry propagation and the position arithmetic of with_scale_round.',
+  'text': 'Partial, structural: (1) the complete decision table of RoundingMode::round_pair is read off its CFG and equals the documented definition for every one of the 4200 (mode, sign, digit pair, tail flag) inputs - exhaustive over the abstract cells, the function is never executed; (2) needs_trailing_zeros never claims the tail is irrelevant where round_pair depends on it; (3) round(n) rounds with the configured default mode; (4) with_scale, set_scale, take_and_scale, to_owned_with_scale, with_scale_round and round(n) label every returned decimal with exactly the requested scale (loops widened), and the non-rounding ones are exact when extending; (5) with_scale_round hands the receiver\'s sign to round_pair; only the table-checked functions branch on a RoundingMode. NOT decided: carry propagation and the position arithmetic of with_scale_round.',
   'note': TRUST + ' Oracle: the RoundingMode documentation (IEEE-754 / java.math.RoundingMode semantics).',
  },
  'C14': {
-  'technique': 'static analysis: constant evaluation of source literal tables against 5^k; FpCategory decision tables from the CFG; who-may-call rule over the resolved call graph',
-  'text': 'Partial, structural: the hard-coded multi-word constants equal 5^149 and 5^1074 (the scale literals they are used with); NaN/Infinite map to Err, Subnormal to the subnormal routine, Normal/Zero to the normal routine for f32 and f64 (exhaustive over FpCategory); the unchecked converters are reachable only through those classifiers and every TryFrom/FromPrimitive float entry goes through them. NOT decided: the bit-field arithmetic, exactness of the conversion, all of to_f64.',
+  'technique': 'static analysis: constant evaluation of source literal tables against 5^k; FpCategory decision tables from the CFG; who-may-call rule over the resolved call graph; known-bits/bit-provenance dataflow of the IEEE-754 field extraction',
+  'text': 'Partial, structural: the hard-coded multi-word constants equal 5^149 and 5^1074 (the scale literals they are used with); NaN/Infinite map to Err, Subnormal to the subnormal routine, Normal/Zero to the normal routine for f32 and f64 (exhaustive over FpCategory); the unchecked converters are reachable only through those classifiers and every TryFrom/FromPrimitive float entry goes through them. BITFIELD (known-bits dataflow with provenance over the values derived from to_bits()): for binary32 and binary64 the mantissa is bits 0..M-1 plus the implicit bit, the exponent is bits M..M+E-1 minus (bias+M), the sign is decided by the top bit alone (clear -> Plus), the subnormal magnitude is the representation with exactly the sign bit cleared, the +-0 test looks at every bit but the sign. NOT decided: the power-of-two/five scaling after the split, all of to_f64.',
   'note': TRUST + ' BigUint::from_slice assembles little-endian u32 words.',
  },
  'C15': {
@@ -48,7 +48,7 @@ CLAIMS = {
  },
  'C11': {
   'technique': 'static analysis: provenance of Context fields and of the rounding sign, lazy-tail-flag table cross-check, def-use rule on the radicand',
-  'text': 'Partial, structural: cbrt_with_context -> impl_cbrt_int_scale -> impl_cbrt_uint_scale pass ctx.precision and ctx.rounding unchanged to the final InsigData rounding; the rounding data carries n.sign() (never a literal) and the result is re-signed with that very sign, so Floor/Ceiling see the signed value; needs_trailing_zeros (lazy flag) is consistent with round_pair for all 70 (mode, digit) cells. R-STICKY: known finding (radicand exactness dropped). The digits of the root are NOT decided.',
+  'text': 'Partial, structural: cbrt_with_context -> impl_cbrt_int_scale -> impl_cbrt_uint_scale pass ctx.precision and ctx.rounding unchanged to the final InsigData rounding; the rounding data carries n.sign() (never a literal) and the result is re-signed with that very sign, so Floor/Ceiling see the signed value; needs_trailing_zeros (lazy flag) is consistent with round_pair for all 70 (mode, digit) cells. Scale bookkeeping: on all 9 paths of impl_cbrt_uint_scale (three residues of the scale mod 3, with/without padding, zero) dim(nth_root(n*10^shift,3)) minus the trimmed digits provably equals the scale of the constructed result. R-STICKY: known finding (radicand exactness dropped). The digits of the root are NOT decided.',
   'note': TRUST + ' One known finding is listed in known_findings.json (exact key).',
  },
  'C12': {
@@ -58,7 +58,7 @@ CLAIMS = {
  },
  'C17': {
   'technique': 'static analysis of the serde-json feature configuration: forbidden-callee reachability (no float), panic-site enumeration, sibling cross-check of the scale limit via provenance, structural forwarder check of Serialize',
-  'text': 'Partial, structural (feature configuration serde-json, which the pinned test run never compiles; thorough adds string-only): no float conversion/parse/cast is reachable from visit_str, visit_map or the two JSON-number adapters, so digits are read digit for digit; every may-panic site on those paths is discharged or reviewed; both JSON-number adapters compare the deserialised scale with the generated SERDE_SCALE_LIMIT; Serialize is collect_str(self) and the adapters serialise Number::from_str(Display text). Round-trip equality and the "00" zero are NOT decided.',
+  'text': 'Partial, structural (feature configuration serde-json, which the pinned test run never compiles; thorough adds string-only): no float conversion/parse/cast is reachable from visit_str, visit_map or the two JSON-number adapters, so digits are read digit for digit; every may-panic site on those paths is discharged or reviewed; both JSON-number adapters compare the deserialised scale with the generated SERDE_SCALE_LIMIT; Serialize is collect_str(self) and the adapters serialise Number::from_str(Display text). VISITOR-EXACT: in every visit_<integer|float> method the handed-over value reaches only the exact From<int>/TryFrom<float> converters (no lossy cast, arithmetic or text rendering on the way). Round-trip equality and the "00" zero are NOT decided.',
   'note': TRUST + ' serde callbacks are modelled by a trampoline table (deserialize_any -> every Visitor method, next_value::<BigDecimal> -> Deserialize).',
  },
  'C04': {
@@ -68,7 +68,7 @@ CLAIMS = {
  },
  'C16': {
   'technique': 'static analysis: provenance of rounding mode and sign at the formatting rounding sites; interprocedural taint from Formatter flag getters to the numeral bytes (non-interference)',
-  'text': 'Partial, structural: all rounding data built on the formatting paths takes the generated DEFAULT_ROUNDING_MODE and the sign of the formatted number; pad_integral\'s is_nonnegative derives from that sign; FMT_MAX_INTEGER_PADDING feeds a comparison; and no value obtained from Formatter::{width, fill, align, sign_plus, sign_minus, sign_aware_zero_pad, flags, alternate} flows - directly or through a callee parameter - into the bytes written or into pad_integral, which is a sufficient condition for "flags never alter the digits". That the ASCII-digit rounding agrees numerically with the library rounding is NOT decided.',
+  'text': 'Partial, structural: all rounding data built on the formatting paths takes the generated DEFAULT_ROUNDING_MODE and the sign of the formatted number; pad_integral\'s is_nonnegative derives from that sign; FMT_MAX_INTEGER_PADDING feeds a comparison and the amount compared with it is exactly the amount the buffer grows by (BOUNDED-FILL); byte containers are used consistently as ASCII or as digit values (UNITS); and no value obtained from Formatter::{width, fill, align, sign_plus, sign_minus, sign_aware_zero_pad, flags, alternate} flows - directly or through a callee parameter - into the bytes written or into pad_integral, which is a sufficient condition for "flags never alter the digits". That the ASCII-digit rounding agrees numerically with the library rounding is NOT decided.',
   'note': TRUST + ' Formatter::pad_integral only pads around the buffer it is given.',
  },
  'C07': {
@@ -78,7 +78,7 @@ CLAIMS = {
  },
  'C18': {
   'technique': 'static analysis: structural projection check - path outcome terms of constructors/accessors/views normalised (helpers inlined) and compared with a projection specification',
-  'text': 'Partial, structural: 24 constructors, accessors and views (new, from_bigint, from_biguint, sign, fractional_digit_count, as/into_bigint_and_exponent/scale, digits -> count of the magnitude, to_ref, abs, BigDecimalRef::{to_owned, sign, fractional_digit_count, is_zero, count_digits, as_parts, abs, neg}, the four From<..> for BigDecimalRef) are single-path pure projections equal to their specification. digits()\' counting loop, ten_to_the* and normalized() are NOT decided.',
+  'text': 'Partial, structural: 24 constructors, accessors and views (new, from_bigint, from_biguint, sign, fractional_digit_count, as/into_bigint_and_exponent/scale, digits -> count of the magnitude, to_ref, abs, BigDecimalRef::{to_owned, sign, fractional_digit_count, is_zero, count_digits, as_parts, abs, neg}, the four From<..> for BigDecimalRef) are single-path pure projections equal to their specification. Extending the scale multiplies by the exact power of ten (R-SCALE); ten_to_the_uint/ten_to_the_u64/ten_to_the return 10^k on every loop-free branch; NORMAL-FORM: normalized() strips k trailing zero digits and lowers the scale by that same k (counted from the least-significant end with == 0, radix 10 both ways), zero -> zero(). digits()\' counting loop and the chunked branch of ten_to_the_uint are NOT decided.',
   'note': TRUST + ' Specification in tables/projection_spec.json.',
  },
  'C01': {
